@@ -8,7 +8,8 @@ From Model Require Import PyBase Graph PeriodicTable Stereo Writer.
 From Gen Require Import Elements SmilesTables.
 From Coq Require Import Permutation.
 From Proofs Require Import WriterProofs WriterProofsAtom WriterProofsTokens WriterProofsStream WriterProofsClosures WriterProofsRefuted
-                           WriterWfAtoms WriterWfFlatten WriterWfStream WriterWfDfs WriterWfEvents WriterWfTree WriterWfClosures WriterWfParens.
+                           WriterWfAtoms WriterWfFlatten WriterWfStream WriterWfDfs WriterWfEvents WriterWfTree WriterWfClosures WriterWfParens
+                           WriterWfComplete WriterWfFlatten2 WriterWfDistinct WriterWfFinal WriterWfRun.
 Import ListNotations.
 Open Scope Z_scope.
 
@@ -354,3 +355,50 @@ Print Assumptions C02_writer_closure_numbers.
 Theorem C02_flatten_balanced : forall g t smi, flatten g t = Ok smi -> balanced smi.
 Proof. exact flatten_balanced. Qed.
 Print Assumptions C02_flatten_balanced.
+
+(* ---- writer_wellformed: completeness (second extension round) ---- *)
+
+(* the DFS, any sort key: when the loop ends, the stack is empty, every neighbour of a visited atom is visited and every bond
+   between visited atoms is recorded (tree edge in one direction, or ring-closure pair); the depth limit never cuts *)
+Theorem C02_traverse_complete : forall g w tb o all st t,
+  (forall n m, In n (ws_atoms st) -> In m (nbr_ids g n) -> In m (ws_atoms st)) ->
+  traverse g w tb o all st = Ok t ->
+  let d := tr_dfs t in
+  ds_stack d = [] /\ vis d (tr_start t) /\ In (tr_start t) (ws_atoms st) /\
+  (forall n, vis d n -> In n (ws_atoms st)) /\
+  (forall v, vis d v -> forall m, In m (nbr_ids g v) -> vis d m /\ Rec d v m).
+Proof. exact traverse_complete. Qed.
+Print Assumptions C02_traverse_complete.
+
+(* the flattening loop: whenever it returns, the token list is the WHOLE tree below the start atom: it contains the root, is
+   closed under children, and its bond tokens are exactly the (parent, child) pairs of its atoms, each once *)
+Theorem C02_flatten_full : forall g w tb o all st t smi, traverse g w tb o all st = Ok t -> flatten g t = Ok smi ->
+  res_full (ds_edges (tr_dfs t)) (tr_start t) smi.
+Proof. exact flatten_full. Qed.
+Print Assumptions C02_flatten_full.
+
+(* writer_wellformed, one component, ANY weights / tie-break / options: the token list contains every atom of one connected
+   component of the unwritten atoms exactly once and every bond between them exactly once - as a tree bond token or as one
+   ring-closure pair recorded on both atoms with one cycle number - and nothing else (record component_wf) *)
+Theorem C02_writer_wellformed : forall g w tb o all st t smi, wf_mol g = true ->
+  (forall n m, In n (ws_atoms st) -> In m (nbr_ids g n) -> In m (ws_atoms st)) ->
+  traverse g w tb o all st = Ok t -> flatten g t = Ok smi ->
+  component_wf g (ws_atoms st) t smi.
+Proof. exact writer_wellformed. Qed.
+Print Assumptions C02_writer_wellformed.
+
+(* the whole run: the side condition holds for every component, the components partition the molecule *)
+Theorem C02_component_run : forall g w tb o tabs, wf_mol g = true -> forall st st',
+  RI g st -> component g w tb o tabs (ids g) st = Ok st' ->
+  RI g st' /\ exists t smi, traverse g w tb o (ids g) st = Ok t /\ flatten g t = Ok smi /\
+                          component_wf g (ws_atoms st) t smi /\
+                          ws_order st' = ws_order st ++ atoms_of smi /\
+                          Permutation (ws_atoms st) (ws_atoms st' ++ atoms_of smi).
+Proof. exact component_run. Qed.
+Print Assumptions C02_component_run.
+
+(* every atom of a well-formed molecule is written exactly once: smiles_atoms_order is a permutation of the atom numbers *)
+Theorem C02_writer_order_permutation : forall g w tb o tabs, wf_mol g = true ->
+  forall out order, smiles_tokens g w tb o tabs = Ok (Some (out, order)) -> Permutation order (ids g).
+Proof. exact writer_order_permutation. Qed.
+Print Assumptions C02_writer_order_permutation.
